@@ -60,7 +60,7 @@ type c09Attempt struct {
 	Status  int
 }
 
-var c09bMods = []string{"ps", "pe-coff", "msi", "cat", "jar", "cab", "deb", "rpm", "bigjar", "xap", "bigps", "vsix", "mach-o"}
+var c09bMods = []string{"ps", "pe-coff", "msi", "cat", "jar", "cab", "deb", "rpm", "bigjar", "xap", "bigps", "vsix", "mach-o", "pgp"}
 
 func c09Remote(r *core.Run) {
 	t := r.T
@@ -284,6 +284,14 @@ func c09Remote(r *core.Run) {
 		shared.ZZRunLateHooks()
 		resetFlags(shared.RootCmd)
 		args := []string{"remote", "sign", "-k", key, "-f", in, "-o", out, "-T", c.SigType}
+		if c.Mod == "pgp" && !samePath && t.Chance(1, 2, "input-from-a-pipe") {
+			// the document arrives on standard input (a pipe: readable once, not
+			// seekable) - `... | relic remote sign -f - -o doc.sig`
+			args[5] = "-"
+			simhook.SetStdin(bytes.NewReader(c.Input))
+			defer simhook.SetStdin(nil)
+			r.Probe("input-from-a-pipe")
+		}
 		if c.Digest != "" {
 			args = append(args, "--digest", c.Digest)
 		}
@@ -523,6 +531,14 @@ func verifyFileBytes(c *signCase, data []byte, keys openpgp.EntityList, _ bool) 
 	}
 	defer vf.Close()
 	opts := signers.VerifyOpts{FileName: p, NoChain: true, TrustedPgp: keys}
+	if c.Mod == "pgp" && c.Flags.Get("clearsign") == "" && c.Flags.Get("inline") == "" {
+		// a detached signature: the output is the signature, the document is the input
+		cp := p + ".content"
+		if err := os.WriteFile(cp, c.Input, 0o644); err != nil {
+			return nil, err
+		}
+		opts.Content = cp
+	}
 	var sigs []*signers.Signature
 	if mod.VerifyStream != nil {
 		sigs, err = mod.VerifyStream(vf, opts)
